@@ -66,6 +66,12 @@ add("C17", MC, "Breadth-first search over ALL histories (depth 4/5) of config.se
     "explicit-state BFS over operation histories of the real config machinery with a reference model")
 add("C18", EX, "format_bytes is checked on every n < 2**20 and on both end points of EVERY rounding class of every unit band up to 2**60 (its output is a monotone function of the class, so this covers all integers); parse_bytes/parse_timedelta on every documented unit x every letter-case mask x numeric prefixes against the documented multiplier table; key_split/natural_sort_key on every string of length <= 4 over 9 characters.", "5/C18", "Trusted: the monotonicity/class argument for format_bytes (stated in the evidence assumptions); the documented multiplier table.",
     "bounded exhaustive enumeration of rounding classes / unit spellings / short strings")
+add("C51", EX, "ALL terms of depth <= 2 over a small signature x ALL left-hand sides of depth <= 2 with variables (single-rule sets) and all pairs of depth <= 1 patterns (multi-rule sets): the multiset of (rule, bindings) from iter_matches is compared with a brute-force structural matcher, and top-level rewrite with the set of admissible results.", "5/C51", "Trusted: the brute-force matcher (arity-sensitive, consistent variable binding).",
+    "bounded exhaustive enumeration of terms x rule sets against a brute-force reference matcher")
+add("C25", EX, "Every pipeline of depth <= 2 (thorough <= 3) over a 50-step alphabet of array operations on every chunking of five small shapes is built on the real dask code; on each resulting node the computed shape/dtype, the shape of every block computed alone (to_delayed and .blocks) and the reassembly of the blocks are compared with the lazy .shape/.dtype/.chunks.", "5/C25", ARR_NOTE,
+    "bounded exhaustive program enumeration (all pipelines x all chunkings) with per-block metadata invariant")
+add("C30", EX, "Every program of depth <= 2 (thorough <= 3) over the operations the array expression engine implements, on every chunking of five small shapes and seven base kinds, is executed by NumPy, by the classic engine and - in a child interpreter with array.query-planning enabled - by the expression engine; values, dtype, shape, lazy chunks and per-block shapes of the optimized/lowered expression are compared.", "5/C30", ARR_NOTE + " The expression engine runs in a child interpreter started with DASK_ARRAY__QUERY_PLANNING=True (handshake asserts the engine and the dask tree).",
+    "bounded exhaustive program enumeration, three-way differential (NumPy / classic engine / expression engine)")
 
 
 def build():
